@@ -93,8 +93,15 @@ fn gen_ctor(s: &mut Sink, r: &mut Rng) {
             let mut valid = true;
             if r.chance(1, 4) && !txt.is_empty() {
                 let i = r.below(txt.len() as u64) as usize;
-                txt[i] = *r.pick(&['x', '2', '-', 'O']);
+                txt[i] = *r.pick(&['x', '2', '-', 'O', '+', '_', 'b']);
                 valid = false;
+            } else if r.chance(1, 5) {
+                // a foreign character added in front, at the end or inside (sign, radix prefix, separator): still not a spelling of a list
+                let c = *r.pick(&['+', '-', '_', 'b', '0', '1']);
+                if c != '0' && c != '1' {
+                    match r.below(3) { 0 => txt.insert(0, c), 1 => txt.push(c), _ => { let i = r.below(txt.len() as u64 + 1) as usize; txt.insert(i, c) } }
+                    valid = false;
+                }
             }
             let txt: String = txt.into_iter().collect();
             let t2 = txt.clone();
